@@ -4,7 +4,7 @@ import itertools, json
 import z3
 from .executor import Unsupported
 from .values import *
-from .txmodel import Ctx, mk_struct, none
+from .txmodel import Ctx, mk_struct, none, some
 from . import concrete as C
 from . import seqeq as SE
 from . import opspec as OS
@@ -265,4 +265,256 @@ def q_step_error(env, ops=None, name=None):
                         qr.undecided.append(f"{op}: state change on error not reproduced natively: {json.dumps(nat)[:200]}")
                 finish(qr, ex)
     qr.samples.append({"obligation": qr.name, "script_bits": len(bits)})
+    return qr
+
+
+def q_if_branch(env, name=None):
+    """C14: which branch of a conditional runs.  One step of Interpreter::match_script_bit on ScriptBit::If{code, pass, fail} with a
+    symbolic top item: the elements spliced in after the current index are `pass` exactly when truthy(top) for OP_IF and exactly when
+    NOT truthy(top) for OP_NOTIF (Bitcoin SV: any non-zero byte other than a sole sign bit in the last byte), else `fail` (nothing when
+    absent); the top item is consumed, the rest of the stacks untouched; an empty stack is an error."""
+    qr = QResult(name or "if_branch")
+    P = env.P
+    P.enums.setdefault("Sign", {"Minus": 0, "NoSign": 1, "Plus": 2})
+    f = env.fn("script_matching::<impl interpreter::Interpreter>::match_script_bit")
+    E = P.enums["ScriptBit"]
+    seen = set()
+
+    def bit(tag):
+        return Enum("ScriptBit", "Push", E["Push"], [Bytes(seq_of([z3.BitVec(tag, 8)]))])
+
+    def ident(b):
+        return str(z3.simplify(deref_v(b).f[0].s))
+
+    def deref_v(v):
+        while isinstance(v, Ptr):
+            v = v.get()
+        return v
+
+    def truthy(items):
+        if not items:
+            return z3.BoolVal(False)
+        nz = [t != 0 for t in items[:-1]] + [z3.And(items[-1] != 0, items[-1] != 0x80)]
+        return z3.Or(*nz)
+
+    for op in ("OP_IF", "OP_NOTIF"):
+        opbyte = P.enums["OpCodes"][op]
+        for has_fail in (True, False):
+            for depth, toplen in ((0, 0), (1, 0), (1, 1), (1, 2), (2, 1), (1, 5)):
+                qr.cases += 1
+                ex = env.new_exec()
+
+                def setup(ex, depth=depth, toplen=toplen, has_fail=has_fail):
+                    ctx = Ctx()
+                    ls = [1] * max(0, depth - 1) + ([toplen] if depth else [])
+                    ctx.items = [item_terms(f"s{i}", n) for i, n in enumerate(ls)]
+                    ctx.alt = [item_terms("a0", 1)]
+                    ctx.passb = [bit("p0"), bit("p1")]
+                    ctx.failb = [bit("f0")]
+                    ctx.before, ctx.after = bit("b0"), bit("n0")
+                    state = mk_struct(P, "State", stack=ListV([Bytes(seq_of(it)) for it in ctx.items]), alt_stack=ListV([Bytes(seq_of(it)) for it in ctx.alt]),
+                                      status=Enum("Status", "Running", P.enums["Status"]["Running"]), executed_opcodes=ListV([]), codeseparator_offset=Int(0, "usize"))
+                    ifbit = Enum("ScriptBit", "If", E["If"], [Enum("OpCodes", op, opbyte), ListV([clone(b) for b in ctx.passb]), some(ListV([clone(b) for b in ctx.failb])) if has_fail else none()])
+                    interp = mk_struct(P, "Interpreter", script_bits=ListV([clone(ctx.before), clone(ifbit), clone(ctx.after)]), script_index=Int(1, "usize"), state=state, tx_script=none())
+                    ctx.interp = Ptr([interp], 0)
+                    return f, [ctx.interp, Ptr([ifbit], 0)], ctx
+                try:
+                    results = ex.explore(setup)
+                except Unsupported as e:
+                    qr.undecided.append(f"{op} (fail branch {'present' if has_fail else 'absent'}, depth {depth}, top {toplen} bytes): {e}")
+                    continue
+                for r in results:
+                    qr.paths += 1
+                    c = r.ctx
+                    what = f"{op} with{'' if has_fail else 'out'} an else branch, stack depth {depth}, top item of {toplen} byte(s)"
+                    bad, goal = None, None
+                    if r.kind != "ok":
+                        bad, goal = f"{r.kind}: {r.msg.split(' @')[0][:70]}", z3.BoolVal(True)
+                    elif depth == 0:
+                        if r.ret.variant != "Err":
+                            bad, goal = "succeeds on an empty stack", z3.BoolVal(True)
+                    elif r.ret.variant != "Ok":
+                        bad, goal = "fails although a condition item is present", z3.BoolVal(True)
+                    else:
+                        iv = c.interp.get()
+                        sb = iv.f[P.structs["Interpreter"].index("script_bits")].f
+                        t = truthy(c.items[-1])
+                        run_pass = t if op == "OP_IF" else z3.Not(t)
+                        head, tail = [ident(c.before)], [ident(c.after)]
+                        want_pass = head + ["IF"] + [ident(b) for b in c.passb] + tail
+                        want_fail = head + ["IF"] + ([ident(b) for b in c.failb] if has_fail else []) + tail
+                        got = [("IF" if deref_v(b).variant == "If" else ident(b)) for b in sb]
+                        stv = iv.f[P.structs["Interpreter"].index("state")]
+                        stack = stv.f[P.structs["State"].index("stack")].f
+                        if len(stack) != depth - 1:
+                            bad, goal = "the condition item is not consumed (or more than one item is)", z3.BoolVal(True)
+                        elif got == want_pass and got != want_fail:
+                            bad, goal = f"runs the first branch although the condition selects the {'else branch' if has_fail else 'empty else branch'}", z3.Not(run_pass)
+                        elif got == want_fail and got != want_pass:
+                            bad, goal = "runs the else branch (or nothing) although the condition selects the first branch", run_pass
+                        elif got != want_pass:
+                            bad, goal = f"splices neither branch in place after the conditional (got {got})", z3.BoolVal(True)
+                    if bad is None:
+                        continue
+                    s = z3.Solver()
+                    for cnd in r.pc:
+                        s.add(cnd)
+                    s.add(goal)
+                    qr.queries += 1
+                    rr = s.check()
+                    if rr == z3.unknown:
+                        qr.undecided.append(f"{what}: solver unknown")
+                    if rr != z3.sat or (op, bad[:30]) in seen:
+                        continue
+                    seen.add((op, bad[:30]))
+                    m = s.model()
+                    items = [bytes(bv_val(m, b) for b in it) for it in c.items]
+                    # native: <items> OP_IF/NOTIF OP_5 OP_6 [OP_ELSE OP_7] OP_ENDIF OP_8
+                    scr = push_script(items, [], opbyte) + bytes([0x55, 0x56]) + (bytes([0x67, 0x57]) if has_fail else b"") + bytes([0x68, 0x58])
+                    req = {"tx": {"version": 1, "locktime": 0, "inputs": [], "outputs": []}, "ops": [{"op": "interp", "script": scr.hex()}]}
+                    nat = {p: C.Native.run(req, p)[0] for p in ("debug", "release")}
+                    if depth == 0:
+                        exp, ok_ = "error", lambda v: "err" in v
+                    else:
+                        tv = any(b != 0 for b in items[-1][:-1]) or (len(items[-1]) > 0 and items[-1][-1] not in (0, 0x80))
+                        first = tv if op == "OP_IF" else not tv
+                        want_stack = [i.hex() for i in items[:-1]] + (["05", "06"] if first else (["07"] if has_fail else [])) + ["08"]
+                        exp, ok_ = {"stack": want_stack}, lambda v: v.get("ok", {}).get("stack") == want_stack
+                    item = {"message": f"{what}: {bad} [stack {[i.hex() for i in items]}]", "request": req, "op_index": 0, "expected": exp, "native": nat, "opcode": op}
+                    if any(not ok_(v) for v in nat.values()):
+                        qr.violations.append(item)
+                    else:
+                        qr.undecided.append(item["message"] + " — not reproduced natively: " + json.dumps(nat)[:200])
+                finish(qr, ex)
+    qr.samples.append({"obligation": qr.name, "conditionals": ["OP_IF", "OP_NOTIF"], "else": [True, False], "top_item_lengths": [0, 1, 2, 5]})
+    return qr
+
+
+def q_step_vs_run(env, name=None):
+    """C16: single-stepping (Interpreter::next_impl until it returns None or an error) ends in the same stacks and outcome as
+    Interpreter::run_impl on an equal interpreter, for short scripts (stack, arithmetic, VERIFY, conditionals) over symbolic
+    one-byte operands; both executions happen on the same path, the final states are compared structurally."""
+    import re
+    from .executor import Exec
+    from .models import MODELS
+    qr = QResult(name or "step_vs_run")
+    P = env.P
+    P.enums.setdefault("Sign", {"Minus": 0, "NoSign": 1, "Plus": 2})
+    f_run = env.fn("interpreter::Interpreter::run_impl")
+    f_next = env.fn("interpreter::Interpreter::next_impl")
+    E = P.enums["ScriptBit"]
+    OPS = P.enums["OpCodes"]
+
+    def opb(nm):
+        return Enum("ScriptBit", "OpCode", E["OpCode"], [Enum("OpCodes", nm, OPS[nm])])
+
+    def ifb(code, p, fl):
+        return Enum("ScriptBit", "If", E["If"], [Enum("OpCodes", code, OPS[code]), ListV([opb(x) for x in p]), some(ListV([opb(x) for x in fl])) if fl is not None else none()])
+
+    scripts = {
+        "ADD": lambda: [opb("OP_ADD")],
+        "DUP ADD": lambda: [opb("OP_DUP"), opb("OP_ADD")],
+        "SWAP SUB 1ADD": lambda: [opb("OP_SWAP"), opb("OP_SUB"), opb("OP_1ADD")],
+        "VERIFY 1": lambda: [opb("OP_VERIFY"), opb("OP_1")],
+        "IF 1ADD ELSE 1SUB ENDIF DUP": lambda: [ifb("OP_IF", ["OP_1ADD"], ["OP_1SUB"]), opb("OP_DUP")],
+        "NOTIF DROP ENDIF": lambda: [ifb("OP_NOTIF", ["OP_DROP"], None)],
+        "IF IF 2 ENDIF ENDIF": lambda: [Enum("ScriptBit", "If", E["If"], [Enum("OpCodes", "OP_IF", OPS["OP_IF"]), ListV([ifb("OP_IF", ["OP_2"], None)]), none()])],
+        "TOALTSTACK FROMALTSTACK EQUAL": lambda: [opb("OP_TOALTSTACK"), opb("OP_DUP"), opb("OP_FROMALTSTACK"), opb("OP_EQUAL")],
+        "DROP DROP DROP": lambda: [opb("OP_DROP"), opb("OP_DROP"), opb("OP_DROP")],
+        "(empty)": lambda: [],
+    }
+    models = [(re.compile(r"(^|::)_print$|^std::io::_print$"), lambda ex, a, callee, canon: UNIT), (re.compile(r"^Arguments::from_str$"), lambda ex, a, callee, canon: Opaque("fmt"))] + MODELS
+
+    def native(scr_bytes):
+        req = {"tx": {"version": 1, "locktime": 0, "inputs": [], "outputs": []}, "ops": [{"op": "interp_step_vs_run", "script": scr_bytes.hex()}]}
+        nat = {p: C.Native.run(req, p)[0] for p in ("debug", "release")}
+        return req, nat
+
+    for label, mk in scripts.items():
+        qr.cases += 1
+        ex = Exec(P, models, max_paths=5000)
+
+        def interp_value(ctx):
+            state = mk_struct(P, "State", stack=ListV([Bytes(seq_of(it)) for it in ctx.items]), alt_stack=ListV([]), status=Enum("Status", "Running", P.enums["Status"]["Running"]),
+                              executed_opcodes=ListV([]), codeseparator_offset=Int(0, "usize"))
+            return mk_struct(P, "Interpreter", script_bits=ListV(mk()), script_index=Int(0, "usize"), state=state, tx_script=none())
+
+        def setup(ex):
+            ctx = Ctx()
+            ctx.items = [item_terms("s0", 1), item_terms("s1", 1)]
+            ctx.a = Ptr([interp_value(ctx)], 0)
+            ctx.b = Ptr([interp_value(ctx)], 0)
+            ex._ctx = ctx
+            return "__step_vs_run__", [], ctx
+        orig = ex.call_fn
+
+        def call_fn(name_, args, ex=ex, orig=orig):
+            if name_ != "__step_vs_run__":
+                return orig(name_, args)
+            ctx = ex._ctx
+            ra = orig(f_run, [ctx.a])
+            steps, rb = 0, None
+            while True:
+                steps += 1
+                if steps > 40:
+                    raise Unsupported("stepping does not finish within 40 steps")
+                o = orig(f_next, [ctx.b])
+                if o.variant == "None":
+                    rb = "finished"
+                    break
+                if o.f[0].variant == "Err":
+                    rb = "error"
+                    break
+            return Struct("tuple", [ra, Opaque(rb)])
+        ex.call_fn = call_fn
+        try:
+            results = ex.explore(setup)
+        except Unsupported as e:
+            qr.undecided.append(f"script [{label}]: {e}")
+            continue
+        reported = False
+        for r in results:
+            qr.paths += 1
+            if r.kind != "ok":
+                qr.undecided.append(f"script [{label}]: {r.kind} {r.msg}")
+                continue
+            ra, rb = r.ret.f
+            c = r.ctx
+            bad = None
+            if (ra.variant == "Ok") != (rb.tag == "finished"):
+                bad = f"run returns {ra.variant} but stepping ends with '{rb.tag}'"
+            else:
+                sa = c.a.get().f[P.structs["Interpreter"].index("state")]
+                sb = c.b.get().f[P.structs["Interpreter"].index("state")]
+                for nm in ("stack", "alt_stack"):
+                    ga, gb = sa.f[P.structs["State"].index(nm)].f, sb.f[P.structs["State"].index(nm)].f
+                    if len(ga) != len(gb):
+                        bad = f"final {nm} depth differs: run {len(ga)}, stepping {len(gb)}"
+                        break
+                    for x, y in zip(ga, gb):
+                        outs = SE.compare(list(r.pc), x.s, y.s, {})
+                        qr.queries += 1
+                        if any(o[0] != "equal" for o in outs):
+                            bad = f"final {nm} differs between run and stepping"
+            if bad is None or reported:
+                continue
+            s = z3.Solver()
+            for cnd in r.pc:
+                s.add(cnd)
+            if s.check() != z3.sat:
+                continue
+            m = s.model()
+            items = [bytes(bv_val(m, b) for b in it) for it in c.items]
+            tail = {"ADD": "93", "DUP ADD": "7693", "SWAP SUB 1ADD": "7c948b", "VERIFY 1": "6951", "IF 1ADD ELSE 1SUB ENDIF DUP": "638b678c6876", "NOTIF DROP ENDIF": "647568", "IF IF 2 ENDIF ENDIF": "6363526868",
+                    "TOALTSTACK FROMALTSTACK EQUAL": "6b766c87", "DROP DROP DROP": "757575", "(empty)": ""}[label]
+            scr = b"".join(bytes([len(i)]) + i for i in items) + bytes.fromhex(tail)
+            req, nat = native(scr)
+            item = {"message": f"script [{label}] on stack {[i.hex() for i in items]}: {bad}", "request": req, "op_index": 0, "expected": {"same": True}, "native": nat}
+            reported = True
+            if any(v.get("ok") != {"same": True} for v in nat.values()):
+                qr.violations.append(item)
+            else:
+                qr.undecided.append(item["message"] + " — not reproduced natively: " + json.dumps(nat)[:200])
+        finish(qr, ex)
+    qr.samples.append({"obligation": qr.name, "scripts": list(scripts)})
     return qr
